@@ -61,27 +61,31 @@ def assign_roles(ctx, u):
         if isinstance(n, ast.Assign):
             if isinstance(n.value, ast.Call) and callee_qual(p, u, n.value) == 'core.arg_val' and is_name(n.targets[0]):
                 r.setdefault('val', n.targets[0].id)
-    for n in ast.walk(u.node):
-        if isinstance(n, ast.If):
-            b = match(n.test, 'self.path.startswith(S)')
-            if b is not None and len(n.body) == 2 and len(n.orelse) == 2:
-                got = {}
-                for st in n.body:
-                    b1 = match(st, '$dt = scope[UP]')
-                    b2 = match(st, '$dp = self.path.from_t()')
-                    if b1:
-                        got['dest_target'] = b1['dt']
-                    if b2:
-                        got['dest_path'] = b2['dp']
-                ok_else = set()
-                for st in n.orelse:
-                    if got.get('dest_target') and matches(st, '%s = %s' % (got['dest_target'], u.params[1])):
-                        ok_else.add('t')
-                    if got.get('dest_path') and matches(st, '%s = self.path' % got['dest_path']):
-                        ok_else.add('p')
-                if len(got) == 2 and ok_else == {'t', 'p'}:
-                    r.update(got)
-                    r['root_split'] = n
+    # the start of the walk to the destination: the two values the fetch's target / path
+    # arguments hold when the path is S-rooted and when it is not (however the choice is written)
+    from ..util import choice_values, evaluator_calls as _evs
+    cfg = ctx.cfg(u)
+    pathv = r.get('path')
+    scope, target = u.params[2], u.params[1]
+    for e in _evs(p, u):
+        if any(isinstance(a, ast.ExceptHandler) for a in ancestors(e)):
+            continue
+        if not (len(e.args) >= 2 and is_name(e.args[0]) and is_name(e.args[1])):
+            continue
+        at = cfg.node_containing(e)
+        dt, dp = e.args[0].id, e.args[1].id
+        paths = ['self.path'] + ([pathv] if pathv else [])
+        for pe in paths:
+            tmpl = '%s.startswith(S)' % pe
+            cv_t = choice_values(cfg, at, dt, tmpl)
+            cv_p = choice_values(cfg, at, dp, tmpl)
+            if not cv_t or not cv_p:
+                continue
+            if cv_t[0] == ['%s[UP]' % scope] and cv_t[1] == [target] \
+                    and len(cv_p[0]) == 1 and cv_p[0][0] in ['%s.from_t()' % x for x in paths] \
+                    and len(cv_p[1]) == 1 and cv_p[1][0] in paths:
+                r['dest_target'], r['dest_path'] = dt, dp
+                r['root_split'] = at.ast
     return r
 
 
